@@ -52,6 +52,9 @@ func MakeEvent(d *lref.DAG, i int, evs []*tdag.TestEvent, frame int) *tdag.TestE
 	put(uint64(d.IDs[re.Creator]))
 	put(uint64(re.Seq))
 	put(uint64(frame))
+	if re.Salt != 0 {
+		put(uint64(1<<40 + re.Salt))
+	}
 	for _, p := range re.Parents {
 		ps = append(ps, evs[p].ID())
 		id := evs[p].ID()
